@@ -154,6 +154,28 @@ impl NegotiatedConnection {
     }
 }
 
+/// Verification hook: a negotiated TCP connection as a bare yamux endpoint. Adds code only.
+#[cfg(feature = "verif")]
+pub struct VerifRawPeer {
+    connection: crate::yamux::ControlledConnection<NoiseSocket<Compat<TcpStream>>>,
+    control: crate::yamux::Control,
+}
+
+#[cfg(feature = "verif")]
+impl VerifRawPeer {
+    /// The yamux control handle (open outbound streams, close).
+    pub fn control(&self) -> crate::yamux::Control {
+        self.control.clone()
+    }
+
+    /// Drive the yamux connection; yields the inbound streams.
+    pub async fn next(
+        &mut self,
+    ) -> Option<Result<crate::yamux::Stream, crate::yamux::ConnectionError>> {
+        self.connection.next().await
+    }
+}
+
 /// TCP connection.
 pub struct TcpConnection {
     /// Protocol context.
@@ -540,6 +562,84 @@ impl TcpConnection {
         )
         .await
         .map(|connection| connection.peer)
+    }
+
+    /// Verification hook: [`TcpConnection::negotiate_connection`] on an established TCP stream
+    /// and, with the caller's `protocol_set`, the connection object `TcpTransport::accept`
+    /// builds (production constructor, yamux/noise defaults). Adds code only.
+    #[cfg(feature = "verif")]
+    pub async fn verif_connection(
+        stream: TcpStream,
+        role: Role,
+        keypair: Keypair,
+        connection_id: ConnectionId,
+        protocol_set: ProtocolSet,
+        substream_open_timeout: Duration,
+    ) -> Result<Self, NegotiationError> {
+        let address = stream.peer_addr().map_err(|error| NegotiationError::IoError(error.kind()))?;
+        // the handshake gets a generous timeout of its own; `substream_open_timeout` is what the
+        // event loop uses for substream negotiations
+        let mut context = Self::negotiate_connection(
+            stream,
+            None,
+            connection_id,
+            keypair,
+            role,
+            AddressType::Socket(address),
+            Default::default(),
+            noise::MAX_READ_AHEAD_FACTOR,
+            noise::MAX_WRITE_BUFFER_SIZE,
+            Duration::from_secs(20),
+        )
+        .await?;
+        context.substream_open_timeout = substream_open_timeout;
+
+        Ok(Self::new(
+            context,
+            protocol_set,
+            BandwidthSink::new(),
+            Arc::new(AtomicUsize::new(0usize)),
+        ))
+    }
+
+    /// Verification hook: the other end of such a connection as a bare yamux endpoint (no
+    /// event loop, no protocol set). Adds code only.
+    #[cfg(feature = "verif")]
+    pub async fn verif_raw_peer(
+        stream: TcpStream,
+        role: Role,
+        keypair: Keypair,
+        timeout: Duration,
+    ) -> Result<VerifRawPeer, NegotiationError> {
+        let address = stream.peer_addr().map_err(|error| NegotiationError::IoError(error.kind()))?;
+        let NegotiatedConnection {
+            connection,
+            control,
+            ..
+        } = Self::negotiate_connection(
+            stream,
+            None,
+            ConnectionId::from(0usize),
+            keypair,
+            role,
+            AddressType::Socket(address),
+            Default::default(),
+            noise::MAX_READ_AHEAD_FACTOR,
+            noise::MAX_WRITE_BUFFER_SIZE,
+            timeout,
+        )
+        .await?;
+
+        Ok(VerifRawPeer {
+            connection,
+            control,
+        })
+    }
+
+    /// Verification hook: the crate-private event loop. Adds code only.
+    #[cfg(feature = "verif")]
+    pub async fn verif_start(self) -> crate::Result<()> {
+        self.start().await
     }
 
     /// Verification hook: run [`TcpConnection::negotiate_protocol`] (multistream-select under
